@@ -280,6 +280,18 @@ pub static ESCAPED: std::sync::Mutex<Vec<String>> = std::sync::Mutex::new(Vec::n
 
 thread_local! {
     static LAST_PANIC: std::cell::RefCell<Option<String>> = const { std::cell::RefCell::new(None) };
+    /// >0 while this thread is inside `catch` (i.e. running the subject under test)
+    static IN_SUBJECT: std::cell::Cell<u32> = const { std::cell::Cell::new(0) };
+    /// what this thread is currently exploring (JSON case, human-readable key), for aborts that cannot be caught
+    static CURRENT_CASE: std::cell::RefCell<Option<(String, String)>> = const { std::cell::RefCell::new(None) };
+}
+
+/// Property and tier of this process (set once by the entry point) for the emergency report.
+pub static PROCESS_INFO: std::sync::Mutex<(String, String)> = std::sync::Mutex::new((String::new(), String::new()));
+
+/// Tell the emergency reporter what this thread is about to run.
+pub fn set_current_case(case_json: String, key: String) {
+    CURRENT_CASE.with(|c| *c.borrow_mut() = Some((case_json, key)));
 }
 
 /// Install a panic hook that records message and location per thread instead of printing.
@@ -294,13 +306,38 @@ pub fn install_quiet_panic_hook() {
         };
         let loc = info.location().map(|l| format!("{}:{}", l.file(), l.line())).unwrap_or_default();
         LAST_PANIC.with(|p| *p.borrow_mut() = Some(format!("{msg} @ {loc}")));
+        // A panic that cannot unwind (an unsafe precondition check, a panic in a destructor or across an FFI
+        // boundary) aborts the process and cannot be caught. If it happens while the subject under test is
+        // running it is the subject's crash: report it as a violation with what was being explored, and exit 1.
+        // (PanicHookInfo::can_unwind is unstable: recognised by the messages the runtime uses)
+        if msg.starts_with("unsafe precondition(s) violated") || msg.contains("cannot unwind") {
+            let in_subject = IN_SUBJECT.with(|c| c.get()) > 0;
+            let (prop, tier) = PROCESS_INFO.lock().map(|g| g.clone()).unwrap_or_default();
+            let case = CURRENT_CASE.with(|c| c.borrow().clone());
+            if in_subject && !prop.is_empty() {
+                let dir = std::env::var("VERIF_DIR").unwrap_or_else(|_| "/verif".to_string());
+                let _ = std::fs::create_dir_all(format!("{dir}/replays/{prop}"));
+                let path = format!("{dir}/replays/{prop}/abort.json");
+                let (cj, key) = case.unwrap_or(("{\"kind\": \"abort\"}".to_string(), "(no case recorded)".to_string()));
+                let esc = |s: &str| s.replace('\\', "\\\\").replace('"', "\\\"").replace('\n', " ");
+                let _ = std::fs::write(&path, format!("{{\"property\": \"{prop}\", \"kind\": \"process-abort\", \"key\": \"{}\", \"case\": {cj}, \"detail\": \"{}\"}}", esc(&key), esc(&format!("{msg} @ {loc}"))));
+                let ev = format!("{{\"property_id\": \"{prop}\", \"tier\": \"{tier}\", \"seed\": 0, \"level\": \"model_checking\", \"coverage\": {{\"states\": 1, \"transitions\": 1, \"traces_validated_against_impl\": 0, \"samples\": [\"{}\"], \"explanation\": \"the run ended early: the code under test aborted the process (non-unwinding panic) while exploring the sample above\"}}, \"wall_s\": 0.0, \"violations\": 1}}", esc(&key));
+                let _ = std::fs::write(format!("{dir}/evidence/{prop}.json"), ev);
+                println!("VIOLATION property={prop} replay={path}");
+                eprintln!("  violation [process-abort] {key} :: {msg} @ {loc}");
+                std::process::exit(1);
+            }
+        }
     }));
 }
 
 /// Run `f`, turning a panic into Err(message @ file:line).
 pub fn catch<R>(f: impl FnOnce() -> R) -> Result<R, String> {
     LAST_PANIC.with(|p| *p.borrow_mut() = None);
-    match std::panic::catch_unwind(std::panic::AssertUnwindSafe(f)) {
+    IN_SUBJECT.with(|c| c.set(c.get() + 1));
+    let r = std::panic::catch_unwind(std::panic::AssertUnwindSafe(f));
+    IN_SUBJECT.with(|c| c.set(c.get().saturating_sub(1)));
+    match r {
         Ok(r) => Ok(r),
         Err(_) => Err(LAST_PANIC.with(|p| p.borrow_mut().take()).unwrap_or_else(|| "panic".to_string())),
     }
